@@ -120,15 +120,7 @@ def render_module(uni, slot, module, style=None):
                 lines.append(head + ", ".join(parts) + ")")
                 lines.append("class TestC%d:" % cls_counter)
                 indent = "    "
-            if marks:
-                head = indent + "@pytest.mark.usefixtures("
-                col = len(head)
-                parts = []
-                for j, m in enumerate(marks):
-                    r.use_pos[(idx, "m", j + 1)] = (len(lines) + 1, col + 1, col + 1 + len(m))
-                    parts.append('"%s"' % m)
-                    col += len(m) + 4
-                lines.append(head + ", ".join(parts) + ")")
+            # a function carrying both: the parametrize decorator is written ABOVE the usefixtures decorator
             if ind:
                 head = indent + "@pytest.mark.parametrize("
                 s = ",".join(ind)
@@ -138,6 +130,15 @@ def render_module(uni, slot, module, style=None):
                     r.use_pos[(idx, "i", j + 1)] = (len(lines) + 1, col + 1, col + 1 + len(s))
                 vals = "[1]" if len(ind) == 1 else "[(%s)]" % ", ".join("1" for _ in ind)
                 lines.append(head + '"%s", %s, indirect=True)' % (s, vals))
+            if marks:
+                head = indent + "@pytest.mark.usefixtures("
+                col = len(head)
+                parts = []
+                for j, m in enumerate(marks):
+                    r.use_pos[(idx, "m", j + 1)] = (len(lines) + 1, col + 1, col + 1 + len(m))
+                    parts.append('"%s"' % m)
+                    col += len(m) + 4
+                lines.append(head + ", ".join(parts) + ")")
             head = indent + "def %s(" % it["name"]
             col = len(head)
             parts = []
